@@ -1209,6 +1209,10 @@ class DigitalWaveform(Generic[TDigitalState]):
                 raise create_datatype_mismatch_error(
                     "input waveform", waveform.dtype, "waveform", self.dtype
                 )
+            if waveform.signal_count != self.signal_count:
+                raise create_signal_count_mismatch_error(
+                    "input waveform", waveform.signal_count, "waveform", self.signal_count
+                )
 
         new_timing = self._timing
         for waveform in waveforms:
